@@ -39,6 +39,7 @@ class TraceContainer:
             self.traces[tid] = TraceCsv(file, tid, self, from_string=from_string, keep_signals=keep_signals)
         else:
             print(f'File extension "{file_extension}" not supported.')
+            return
 
         self.n_traces += 1
 
